@@ -2,8 +2,10 @@ package main
 
 import (
 	"fmt"
+	"math/rand"
 	"os"
 	"path/filepath"
+	"runtime"
 	"strings"
 
 	"github.com/Vedant9500/WTF/internal/database"
@@ -85,6 +87,7 @@ func engineFilters(ctx *Ctx) {
 	tools := c04Tools(ctx)
 	ctx.R.Extra["recognised_tool_names_in_the_program_text"] = float64(len(tools)) / float64(ctx.NShards)
 	c04ToolSweep(ctx, tools)
+	c04Huge(ctx, r)
 	for d := 0; d < nDB; d++ {
 		var db *database.Database
 		dbName := fmt.Sprintf("gen-%d-%d", ctx.Shard, d)
@@ -242,6 +245,34 @@ func engineFilters(ctx *Ctx) {
 			dbName += "/grown-by-" + how
 			ctx.R.Path("grown-"+how, 1)
 		}
+		// a word table that knows a synonym for every word of a few entries: a request that paraphrases such an entry shares no
+		// word with the database, and whatever answers it (a semantic stage, the fallback, nothing) is bound by the filters
+		var paraphrases []string
+		if g := ctx.G(d); dbName != "shipped" && g%8 == 6 && len(db.Commands) > 0 {
+			syn := map[string]string{}
+			for k := 0; k < 4; k++ {
+				c := &db.Commands[r.Intn(len(db.Commands))]
+				ft := vlib.FieldTexts(c)
+				var qs []string
+				for _, t := range vlib.Tokenize(strings.Join(ft[:], " ")) {
+					if len(qs) < 12 {
+						syn["syn"+t] = t
+						qs = append(qs, "syn"+t)
+					}
+				}
+				if len(qs) > 0 {
+					paraphrases = append(paraphrases, strings.Join(qs, " "))
+				}
+			}
+			ok := false
+			ctx.R.Guard("C04", "LoadEmbeddings", dbName, func() { ok = attachEmbeddingsExtra(ctx, r, db, "unit", syn) })
+			if ok {
+				dbName += "/word-table-with-synonyms"
+				ctx.R.Path("databases-with-a-word-table-holding-synonyms", 1)
+			} else {
+				paraphrases = nil
+			}
+		}
 		cmds := db.Commands
 		N := len(cmds)
 		words := vlib.DBWords(cmds)
@@ -270,6 +301,12 @@ func engineFilters(ctx *Ctx) {
 				AllPlatforms:    r.Intn(5) == 0,
 				Platforms:       c04PlatformSets[r.Intn(len(c04PlatformSets))],
 				NoCrossPlatform: r.Intn(3) == 0,
+			}
+			if qi < 2*len(paraphrases) {
+				q = paraphrases[qi/2]
+				o.PipelineOnly = qi%2 == 0
+				o.Limit = N + 1
+				ctx.R.Path("paraphrase-requests", 1)
 			}
 			cs := map[string]interface{}{"db": dbName, "n": N, "query": q, "opts": vlib.OptsJ(o)}
 			ctx.R.Begin(cs)
@@ -518,5 +555,74 @@ func c04ToolSweep(ctx *Ctx, tools []string) {
 				c04Report(ctx, cs, o, cdb.SearchWithOptionsAndCache(q, o), "SearchWithOptionsAndCache", "tool-name-sweep")
 			})
 		}
+	}
+}
+
+// c04Huge: databases of 8 to 70 thousand entries (past 8192, past 65536; sizes that are no multiple of a worker count) searched
+// under several processor counts. The entries that must be filtered out sit at the very end, where a notebook merge puts them:
+// they match the query, are declared for one unusual platform only and are not pipelines.
+func c04Huge(ctx *Ctx, r *rand.Rand) {
+	sizes := []int{8193, 70001, 12289, 65543, 9001, 20011, 66003, 33333}
+	if !ctx.Thorough && ctx.Shard%4 != 2 {
+		return
+	}
+	n := sizes[(ctx.Shard/2)%len(sizes)]
+	procs := []int{2, 3, 7, 16, 4, 8, 5, 32}[(ctx.Shard/4+ctx.Shard)%8]
+	cs0 := map[string]interface{}{"db": "huge", "n": n, "gomaxprocs": procs}
+	var db *database.Database
+	var cmds []vlib.Cmd
+	if !ctx.R.Guard("C04", "LoadDatabase", cs0, func() { db, cmds = vlib.HugeDB(r, n, 37) }) {
+		return
+	}
+	defer runtime.GOMAXPROCS(runtime.GOMAXPROCS(procs))
+	cdb := database.NewCachedDatabase(db)
+	stockWords := vlib.DBWords(cmds[:300])
+	for qi := 0; qi < ctx.Pick(10, 40); qi++ {
+		q := vlib.TailWord
+		switch qi % 4 {
+		case 1:
+			q = vlib.TailWord + " " + stockWords[r.Intn(len(stockWords))]
+		case 2:
+			q = "note " + stockWords[r.Intn(len(stockWords))]
+		case 3:
+			q = vlib.TailWord[:3] + vlib.TailWord[4:] // a typo: only the fallback finds the tail entries
+		}
+		o := database.SearchOptions{
+			Limit:           []int{10, n + 1}[qi%2],
+			UseNLP:          qi%3 == 0,
+			UseFuzzy:        true,
+			PipelineOnly:    qi%5 == 1,
+			Platforms:       c04PlatformSets[r.Intn(len(c04PlatformSets))],
+			NoCrossPlatform: qi%2 == 1,
+		}
+		cs := map[string]interface{}{"db": "huge", "n": n, "gomaxprocs": procs, "query": q, "opts": vlib.OptsJ(o)}
+		ctx.R.Begin(cs)
+		ctx.R.Eval(1)
+		var res []database.SearchResult
+		if !ctx.R.Guard("C04", "SearchUniversal", cs, func() { res = db.SearchUniversal(q, o) }) {
+			continue
+		}
+		c04Report(ctx, cs, o, res, "SearchUniversal", "huge")
+		ctx.R.Guard("C04", "SearchWithOptionsAndCache", cs, func() {
+			c04Report(ctx, cs, o, cdb.SearchWithOptionsAndCache(q, o), "SearchWithOptionsAndCache", "huge")
+			c04Report(ctx, cs, o, cdb.SearchWithOptionsAndCache(q, o), "SearchWithOptionsAndCache", "huge/cached")
+		})
+		// the unfiltered answer holds tail entries: there was something to filter
+		open := o
+		open.AllPlatforms, open.PipelineOnly, open.NoCrossPlatform, open.Platforms, open.Limit = true, false, false, nil, n+1
+		ctx.R.Guard("C04", "SearchUniversal", cs, func() {
+			for _, x := range db.SearchUniversal(q, open) {
+				if leak, _ := vlib.PlatformLeak(x.Command, o, c04IsTool); leak || (o.PipelineOnly && vlib.DefinitelyNotPipeline(x.Command)) {
+					ctx.R.Path("huge-database-searches-with-something-to-filter", 1)
+					ctx.R.Nontriv("huge", n, q, fmt.Sprintf("%+v", vlib.OptsJ(o)))
+					break
+				}
+			}
+		})
+		ctx.R.Path("huge-database-searches", 1)
+	}
+	ctx.R.Path("huge-databases", 1)
+	if n > 65536 {
+		ctx.R.Path("huge-databases-over-65536-entries", 1)
 	}
 }
